@@ -121,11 +121,25 @@ def handle (s : State) (line : String) : State × String :=
     match e.toNat? with
     | some e => (collect cfg (dropEnum e s), "ok")
     | none => (s, "bad-op")
-  | ["render", _obj, kind, k, mode, top, subs, lines] =>
+  | ["render", _obj, kind, k, modePk, top, subs, lines] =>
+    -- modePk = mode, mode+c (palette=<the palette class>), mode+o (palette=<PaletteClass(conf)> object)
+    let mode := (modePk.splitOn "+").headD modePk
+    let pk := ((modePk.splitOn "+").drop 1).headD "n"
     match confOf s k, top.toNat?, parseNatList subs, parseLines lines with
     | some k, some top, some subs, some ls =>
       let nc := mode = "n" || mode = "m" || mode = "M"
-      match render cfg reuseAlloc k nc ⟨top, subs, ls.map (·.line)⟩ s with
+      let sh : Shape := ⟨top, subs, ls.map (·.line)⟩
+      if pk = "o" then
+        -- the program makes the palette object from configuration k; with no_color `_mk_palette` then asks for
+        -- `type(palette)(no_color=True)`, i.e. under the global configuration
+        match mkPalette cfg reuseAlloc top k false s with
+        | .error e => (s, "err " ++ e.name)
+        | .ok (s1, _) =>
+          match render cfg reuseAlloc (if nc then s1.global else k) nc sh s1 with
+          | .ok (s', out) => (s', observe kind mode out)
+          | .error e => (s1, "err " ++ e.name)
+      else
+      match render cfg reuseAlloc k nc sh s with
       | .ok (s', out) => (s', observe kind mode out)
       | .error e => (s, "err " ++ e.name)
     | _, _, _, _ => (s, "bad-op")
